@@ -64,6 +64,11 @@ Theorem C14_2d_trace : forall H mask_nth, is2d H -> forall i lo hi ov,
   ~ (0 <= i < rd_tracecount H) -> rd_get_trace mask_nth H i lo hi ov = Raise IndexErr.
 Proof. exact (fun H m => trace_2d_oob H m). Qed.
 Print Assumptions C14_2d_trace.
+Theorem C14_2d_trace_window : forall H mask_nth, is2d H -> forall i lo hi ov,
+  0 <= i < rd_tracecount H -> ~ (0 <= lo < hi /\ hi <= rd_n_samples H) ->
+  rd_get_trace mask_nth H i (Some lo) (Some hi) ov = Raise IndexErr.
+Proof. exact (fun H m => trace_2d_oob_window H m). Qed.
+Print Assumptions C14_2d_trace_window.
 Theorem C14_2d_subplane : forall H, is2d H -> forall a b c d,
   ~ (0 <= a < b /\ b <= rd_tracecount H /\ 0 <= c < d /\ d <= rd_n_samples H) ->
   rd_read_subplane H a b c d false = Raise IndexErr.
